@@ -114,12 +114,15 @@ def run(chk):
             ls, neg_h, pos_h = grids[meth]
             names = {(ng, h) for ng, h, _ in ls}
             exprs, meta = [], []
-            for x in xs:
+            # (every second lookup passes the SAME two option dictionaries, as a metallicity scan that keeps its options in one place does:
+            #  the table must be the one nearest to the metallicity of THIS call)
+            shared_bh, shared_wd = {}, {}
+            for ix_, x in enumerate(xs):
                 opened.clear()
-                case = dict(method=meth, FeH=float(x), negzero=bool(x == 0 and math.copysign(1, x) < 0))
+                case = dict(method=meth, FeH=float(x), negzero=bool(x == 0 and math.copysign(1, x) < 0), shared_option_dicts=bool(ix_ % 2))
                 chk.note_distinct(case)
                 try:
-                    obj = ifmr_mod.IFMR(x, BH_method=meth)
+                    obj = ifmr_mod.IFMR(x, BH_method=meth, BH_kwargs=shared_bh, WD_kwargs=shared_wd) if ix_ % 2 else ifmr_mod.IFMR(x, BH_method=meth)
                     bh = [p for p in opened if fam in p]
                     m = re.search(r"IFMR_FEH([+-])(\d+)\.(\d\d)\.dat", bh[0])
                     got = (m.group(1) == "-", int(m.group(2)) * 100 + int(m.group(3)))
